@@ -1,6 +1,7 @@
 package e2
 
 import (
+	"bytes"
 	"encoding/json"
 	"errors"
 	"fmt"
@@ -252,8 +253,9 @@ func genSchemaJSON(t *rapid.T) (*chartNode, []byte) {
 	}
 	if rapid.IntRange(0, 2).Draw(t, "withQueries") == 0 {
 		doc["queries"] = map[string]any{
-			"q1": map[string]any{"resource": "transactions", "vars": map[string]any{"acc": "string", "n": map[string]any{"type": "int", "default": json.Number("3")}}, "body": map[string]any{"$and": []any{map[string]any{"$match": map[string]any{"account": "${acc}"}}, map[string]any{"$gte": map[string]any{"id": "${n}"}}}}, "params": map[string]any{"pageSize": json.Number("5"), "sort": "id:asc"}},
+			"q1": map[string]any{"resource": "transactions", "vars": map[string]any{"acc": "string", "n": map[string]any{"type": "int", "default": json.Number(rapid.SampledFrom([]string{"3", "9007199254740993", "18446744073709551617", "1000000000000000000007"}).Draw(t, "intDefault"))}}, "body": map[string]any{"$and": []any{map[string]any{"$match": map[string]any{"account": "${acc}"}}, map[string]any{"$gte": map[string]any{"id": "${n}"}}}}, "params": map[string]any{"pageSize": json.Number("5"), "sort": "id:asc"}},
 			"q2": map[string]any{"resource": "volumes", "params": map[string]any{"groupBy": json.Number("2"), "insertionDate": true}, "description": "é"},
+			"q3": map[string]any{"resource": "accounts", "body": map[string]any{"$gte": map[string]any{"balance[USD/2]": json.Number(rapid.SampledFrom([]string{"10", "9007199254740993", "36893488147419103233"}).Draw(t, "threshold"))}}},
 		}
 	}
 	return root, mustJSON(doc)
@@ -453,7 +455,9 @@ func TestC29(t *testing.T) {
 			root.Fixed["world"] = &chartNode{}
 		}
 		var doc map[string]any
-		_ = json.Unmarshal(raw, &doc)
+		dec := json.NewDecoder(bytes.NewReader(raw))
+		dec.UseNumber() // integers of the query templates stay exact
+		_ = dec.Decode(&doc)
 		doc["chart"] = root.toJSON()
 		raw = mustJSON(doc)
 		var data ledger.SchemaData
